@@ -415,6 +415,8 @@ def counting_routines(counter):
 
 def canon_key(k, pool):
     out = []
+    if not isinstance(k, (tuple, list)):         # a cache whose keys are not the argument tuples (e.g. their hash): reported as such,
+        return ["opaque-key:" + type(k).__name__, repr(k)[:40]]      # the correspondence with the model's cache cells then disagrees
     for x in k:
         if isinstance(x, str):
             out.append("s:" + x)
@@ -542,7 +544,7 @@ def type_collision(model_events, k):
 
 # ================================================================================================ part B: gate histories
 B_FAMILIES = ["eq-angle-diff-duration", "eq-duration-diff-angle", "cr-tcr", "interleaved", "multi-gateset", "warm-exact",
-              "typed-theta", "signed-zero-theta", "periodic-angle", "tiny-angles", "tiny-angles", "random"]
+              "typed-theta", "signed-zero-theta", "periodic-angle", "tiny-angles", "tiny-angles", "hash-collision", "random"]
 SINGLE = ["X", "SX", "single_qubit_gate"]
 TWO = ["CNOT", "CNOT_inv", "ECR", "ECR_inv", "CR"]
 NOISE = ["relaxation", "bitflip", "depolarizing"]
@@ -671,6 +673,16 @@ def gen_gate_case(rng, family, set_descs, idx):
         final = rng.choice([[g, "single_qubit_gate", dict(rest, theta=fl(rng.choice(exact)))],
                             [g, "single_qubit_gate", dict(rest, theta=fl(base_t + rng.choice(shifts[1:])))],
                             [g, "CR", gate_args("CR", rng, theta=fl(base_t + rng.choice(shifts[1:])))]])
+    elif family == "hash-collision":
+        # different angles / durations whose Python hashes are EQUAL (hash(-1.0) == hash(-2.0) == -2 in CPython): same integrand, same
+        # other arguments - anything keyed by a hash instead of the values themselves confuses them
+        g = pick()
+        rest = gate_args("single_qubit_gate", rng)
+        first, second = rng.choice([(-1.0, -2.0), (-2.0, -1.0)])
+        hist.append([g, "single_qubit_gate", dict(rest, theta=fl(first))])
+        if rng.random() < 0.5:
+            hist.append([g, "CR", gate_args("CR", rng, theta=fl(first))])
+        final = [g, "single_qubit_gate", dict(rest, theta=fl(second))]
     elif family == "tiny-angles":
         # many small rotation angles (log-uniform in [1e-9, 4e-4]) on one gate set: each must be reproducible after a seed like any other
         g = pick()
